@@ -122,12 +122,18 @@ where
             //
             // https://datatracker.ietf.org/doc/html/rfc6891#section-6.2.3
             //   Only a requestor that sent an OPT record has told us that it
-            //   accepts more than that.
+            //   accepts more than that, and then no more than the size it
+            //   advertised (values lower than 512 are treated as 512). The
+            //   EDNS middleware, if present, has folded that size into the
+            //   hint already.
             let max_response_size = match request.message().opt() {
                 None => MINIMUM_RESPONSE_BYTE_LEN,
-                Some(_) => ctx
+                Some(opt) => ctx
                     .max_response_size_hint()
-                    .unwrap_or(MINIMUM_RESPONSE_BYTE_LEN),
+                    .unwrap_or(MINIMUM_RESPONSE_BYTE_LEN)
+                    .min(
+                        opt.udp_payload_size().max(MINIMUM_RESPONSE_BYTE_LEN),
+                    ),
             };
             let max_response_size = max_response_size as usize;
             let response_len = response.as_slice().len();
